@@ -25,7 +25,7 @@ ASSUMPTIONS = ['precondition of the property: coordinate sorted input and every 
                'schedules are the deterministic ejection interval of a single-threaded generator']
 MIN_NONTRIVIAL = {'quick': 1500, 'thorough': 60000}
 REQUIRED_MONITORS = ['event:arrive', 'event:emit', 'emit:before_end_of_input', 'schedule:runs', 'path:alignmentfile', 'oracle:truth_compared',
-                     'eject:rounds_with_ejection', 'eject:rounds_nonprefix', 'eject:rounds_noncontiguous', 'history:restarted_passes', 'config:max_associated_fragments']
+                     'eject:rounds_with_ejection', 'eject:rounds_nonprefix', 'eject:rounds_noncontiguous', 'history:restarted_passes', 'config:max_associated_fragments', 'lib:cross_contig_twins']
 EXHAUSTIVE = {'quick': True, 'thorough': True}
 SHARD_TIMEOUT = {'quick': 900, 'thorough': 7200}
 
@@ -96,6 +96,9 @@ def build_plain_single_end(r, case):
     return 'plain', cache, gen, recs, truths
 
 
+TWINS = [0]
+
+
 def build_input(r, case):
     if case['i'] % 4 == 3:
         return build_plain_single_end(r, case)
@@ -137,6 +140,25 @@ def build_input(r, case):
         r, method='nla' if method == 'plain' else method, contigs=contigs, n_cells=r.randint(1, 4), n_sites=n_sites, umi_len=3,
         umis_per_site=umis, copies=copies, case_id=case['i'] + 1, p_clip=0.1, p_invalid=0.0, p_umi_neighbour=0.3,
         frag_range=frag_range, read_len=40, p_mismatch=0.0, site_positions=site_positions, frag_len_fn=frag_len_fn)
+    if ncontig >= 2 and method in ('plain', 'chic') and r.random() < 0.8:
+        # twins: a fragment of the first contig re-appears on the next contig with the same cell, UMI, strand, start and end (real data:
+        # homologous chromosomes, alt contigs). It is another molecule, whatever is still in the buffer when it arrives.
+        src_name, dst_name = contigs[0][0], contigs[1][0]
+        src_tid, dst_tid = gen.tid(src_name), gen.tid(dst_name)
+        ids = sorted(i for i, t in truths.items() if t.get('contig') == src_name and t.get('key'))
+        nxt = max(truths) + 1
+        for i in r.sample(ids, min(len(ids), r.randint(1, 3))):
+            for rec in [x for x in recs if F.id_from_name(x['name']) == i]:
+                twin = dict(rec, name=rec['name'].replace(f'CX:{i};', f'CX:{nxt};'), tid=dst_tid, tags=dict(rec['tags']))
+                if twin.get('next_tid', -1) == src_tid:
+                    twin['next_tid'] = dst_tid
+                recs.append(twin)
+            t = dict(truths[i], id=nxt, contig=dst_name)
+            k = truths[i]['key']
+            t['key'] = (k[0], dst_name) + tuple(k[2:])
+            truths[nxt] = t
+            nxt += 1
+        TWINS[0] += 1
     return method, cache, gen, recs, truths
 
 
@@ -169,7 +191,9 @@ def run_case(case):
     orig_cby = mm.Molecule.can_be_yielded
     acc = Acc()
     r = rng(case['seed'], 'C07', case['i'])
+    TWINS[0] = 0
     method, cache, gen, recs, truths = build_input(r, case)
+    acc.count('lib:cross_contig_twins', TWINS[0])
     if len(truths) < 2:
         return acc
     d = r.choice([0, 0, 1])
